@@ -516,4 +516,33 @@ example : shown (run [.add 0 aT, .add 1 aT, .update 0 aT2, .update 0 aT, .setFil
 example : (run [.add 0 aU, .add 1 aM, .remove 1]).focus = some 0 := by decide
 example : (run [.add 0 aU, .remove 0]).focus = none := by decide
 
+/-! ### audit round 6: non-vacuity witnesses for the hypotheses of the conditional theorems (added by the auditor) -/
+-- `view_eq_sorted_filter_current` / `view_is_sort_when_keys_distinct`: a 3-flow history under the size order, reversed,
+-- with an update in between: nothing stale, pairwise different keys, and the list is the reversed sort
+private def opsW : List Op := [.add 0 aU, .add 1 aM, .add 2 aBig, .setOrder 4, .update 0 aT2, .setReversed true]
+example : stale opsW = [] := by decide
+example : ∀ a ∈ (run opsW).store, ∀ b ∈ (run opsW).store, visible (run opsW) a = true → visible (run opsW) b = true →
+    gen (run opsW) a = gen (run opsW) b → a = b := by decide
+example : shown (run opsW) = [2, 1, 0] ∧ (run opsW).focus = some 0 := by decide
+example : shown (run opsW) = (insertAll (gen (run opsW)) ((run opsW).store.filter (fun g => visible (run opsW) g))).reverse :=
+  view_is_sort_when_keys_distinct opsW (by decide) (by
+    intro a b ha hb
+    have h : ∀ a ∈ (run opsW).store, ∀ b ∈ (run opsW).store, visible (run opsW) a = true → visible (run opsW) b = true →
+        gen (run opsW) a = gen (run opsW) b → a = b := by decide
+    exact h a ha b hb)
+-- `update_is_announced`: the premises hold (listed before and after) and the update signal is in the trace
+example : 0 ∈ (run [.add 0 aU, .add 1 aM]).view ∧ 0 ∈ (step (run [.add 0 aU, .add 1 aM]) (.update 0 aBig)).view ∧
+    (step (run [.add 0 aU, .add 1 aM]) (.update 0 aBig)).trace.contains (.vupd 0) = true := by decide
+-- `refilter_is_stable_sort_of_store` on a history with a tie and a hidden flow (filter 1 hides flow 0 and 2)
+example : (step (run [.add 0 aU, .add 1 aM, .add 2 aBig, .setOrder 4]) (.setFilter 1)).view = [1] ∧
+    (step (run [.add 0 aT, .add 1 aT, .add 2 aT2]) .toggleMarked).view = [] := by decide
+-- `rank_is_order_embedding`: keys of one kind, `b` occurring; both sides of the equivalence true, and both false
+example : rankIn [.num 3, .num 1, .num 2] (.num 2) ≤ rankIn [.num 3, .num 1, .num 2] (.num 3) ∧
+    (SortKey.num 2).le (.num 3) = true ∧
+    ¬ (rankIn [.num 3, .num 1, .num 2] (.num 3) ≤ rankIn [.num 3, .num 1, .num 2] (.num 2)) ∧
+    (SortKey.num 3).le (.num 2) = false := by decide
+-- the signal clauses are not trivially true: removing the focused first flow of two sends remove(0, idx 1: time order lists flow 1 first), a focus
+-- change, and the store-remove signal, in this order
+example : (step (run [.add 0 aU, .add 1 aM]) (.remove 0)).trace = [.fchange, .vrm 0 1, .srm 0] := by decide
+
 end MitmVerif.Props.C43
